@@ -19,7 +19,7 @@ ASSUMPTIONS = [
     "block and source-SCC strategies are not yet modelled in Lean: they are covered by the Lean judge on the real diagram only",
 ]
 STRATS = ["bfs", "dfs", "min", "minskip", "aseeds", "block", "block_nosrc", "block_nomaa", "block_exact",
-          "scc", "scc_nomaa", "limit+skip"]
+          "scc", "scc_nomaa", "limit+skip", "limit+skip"]
 
 
 def budget(tier):
@@ -52,7 +52,7 @@ def strat_ops(rng, st):
     lim = rng.randint(1, 7)
     first = rng.choice([["bfs", 0, None, lim], ["dfs", 0, None, lim], ["min", 0, lim, False], ["aseeds", lim],
                         ["blockx", True, lim, True, False], ["bfs", 0, rng.randint(0, 2), None]])
-    return [first, ["skiprem"]]
+    return [first, ["skiprem"] if rng.random() < 0.5 else ["skipminall"]]
 
 
 def gen_case(rng, tier, k):
@@ -67,8 +67,8 @@ def gen_case(rng, tier, k):
     prefix = []
     if st in ("bfs", "dfs", "min", "aseeds") and rng.random() < 0.5:
         prefix = gen_ops(rng, rng.randint(1, 4), allow_skip=False, allow_unmodelled=False)
-    return {"bnet": bnet, "max_motifs": rng.choice([100000, 100000, 100000, 2, 3, 4]), "strategy": st, "ops": prefix + strat_ops(rng, st), "check": False,
-            "judge_leaves_after": ["bfs", "dfs", "min", "aseeds", "blockx", "scc", "skiprem"]}
+    return {"bnet": bnet, "max_motifs": rng.choice([100000, 100000, 100000, 2, 3, 4]), "strategy": st, "ops": prefix + strat_ops(rng, st), "check": "weak",
+            "judge_leaves_after": ["bfs", "dfs", "min", "aseeds", "blockx", "scc", "skiprem", "skipminall"]}
 
 
 def run_case(case):
